@@ -88,7 +88,9 @@ pub fn lex_number(source: &[char]) -> Option<FoundToken> {
 
     // Find the longest possible valid number
     while !s.is_empty() {
-        if let Ok(n) = s.parse::<f64>() {
+        // `1e999` parses to infinity: not a value anybody wrote, and one that JSON (the statistics
+        // log, the LSP code actions) cannot carry.  Fall back to a shorter, finite prefix.
+        if let Some(n) = s.parse::<f64>().ok().filter(|n| n.is_finite()) {
             let precision = s.chars().rev().position(|c| c == '.').unwrap_or_default();
 
             return Some(FoundToken {
